@@ -373,7 +373,7 @@ def seam_kind(nm, fn):
 
 
 def run_calendar_seams(spec, ctx):
-    """spec = (variant index, [day numbers]): the finder is asked 1e-6 day before and 1e-6 day after 0h of each
+    """spec = (variant index, [day numbers]): the finder is asked 2e-7 day before and 1e-6 day after 0h of each
     seam day; the decimal year the period count is taken from must not run backwards there, so the later query
     must not get an earlier event."""
     vi, days = spec
@@ -381,25 +381,96 @@ def run_calendar_seams(spec, ctx):
     for n in days:
         q0 = n - 0.5
         ctx.evals += 2
-        case = {"planet": nm, "finder": fn, "variant": variant, "query": q0 + 1e-6, "previous_query": q0 - 1e-6,
+        case = {"planet": nm, "finder": fn, "variant": variant, "query": q0 + 1e-6, "previous_query": q0 - 2e-7,
                 "year": fast().date(n)[0]}
         try:
-            r1, _ = call(nm, fn, variant, q0 - 1e-6)
+            r1, _ = call(nm, fn, variant, q0 - 2e-7)        # the last 17 ms of the previous day (month, year)
             r2, _ = call(nm, fn, variant, q0 + 1e-6)
-        except ValueError:
+        except ValueError as ex:
+            if -1999 < case["year"] < 3999:
+                ctx.viol(case, "%s.%s(%s) at the calendar seam JDE %r raised %r" % (nm, fn, variant, q0, ex),
+                         site="finder_exception")
             continue                # range ends are judged by the range clause
         except Exception as ex:
             ctx.viol(case, "%s.%s(%s) at the calendar seam JDE %r raised %r" % (nm, fn, variant, q0, ex),
                      site="finder_exception")
             continue
         if r2 < r1 - 1e-4:
-            ctx.viol(case, "%s.%s(%s): the query 1e-6 d after 0h of %r gets JDE %r, the query 1e-6 d before it JDE %r "
+            ctx.viol(case, "%s.%s(%s): the query 1e-6 d after 0h of %r gets JDE %r, the query 2e-7 d before it JDE %r "
                      "(%.3f periods back)" % (nm, fn, variant, fast().date(n), r2, r1, (r1 - r2) / per),
                      dev=(r1 - r2) / per, site="seam_backwards")
     ctx.nt_count += len(days)
     ctx.outcome((nm, fn, variant))
     ctx.obs(vi, len(days))
     ctx.sample({"planet": nm, "finder": fn, "variant": variant, "seam_days": len(days)})
+
+
+# -- the query instant at which a finder switches from one event to the next: whole minutes and hours around it -----
+
+def check_switch(case):
+    """The switch instant q_s (the finder answers event n before it, event n + 1 after it) is located by bisection
+    on the finder itself, starting from the given query; then the finder is asked 1 s before and after every whole
+    minute within +-9 minutes of q_s and 2 s before and after every whole hour within +-2 hours: in time order
+    the answers must never step back to the earlier event.  (A count of periods taken from a decimal year that
+    drops back at whole minutes or hours - a mistyped divisor in a time-of-day term - flips back and forth there.)"""
+    nm, fn, variant, per = variants()[case["variant_index"]]
+    q0 = case["query"]
+    f = lambda q: call(nm, fn, variant, q)[0]
+    try:
+        ra = f(q0)
+        qb = q0 + 1.3 * per
+        rb = f(qb)
+        if rb < ra + 0.5 * per:
+            return []           # no switch in reach (range end): nothing to examine here
+        lo, hi = q0, qb
+        while hi - lo > 2e-7:
+            mid = (lo + hi) / 2.0
+            if f(mid) < ra + 0.5 * per:
+                lo = mid
+            else:
+                hi = mid
+        pts = []
+        m0 = math.floor(hi * 1440.0)
+        for k in range(-9, 10):
+            pts += [(m0 + k) / 1440.0 - 1.0 / 86400.0, (m0 + k) / 1440.0 + 1.0 / 86400.0]
+        h0 = math.floor(hi * 24.0)
+        for k in range(-2, 3):
+            pts += [(h0 + k) / 24.0 - 2.0 / 86400.0, (h0 + k) / 24.0 + 2.0 / 86400.0]
+        pts = sorted(set(pts + [lo, hi]))
+        vals = [f(q) for q in pts]
+    except ValueError as ex:
+        return [("switch_exception", "%s.%s(%s) raised %r near the switch after the query JDE %r" % (nm, fn, variant, ex, q0), None)]
+    out = []
+    best = vals[0]
+    for q, v in zip(pts, vals):
+        if v < best - 0.5 * per:
+            out.append(("switch_backwards", "%s.%s(%s): the query JDE %r gets the event at JDE %r, an earlier query got "
+                        "the event at JDE %r (switch instant %r)" % (nm, fn, variant, q, v, best, hi), (best - v) / per))
+            break
+        best = max(best, v)
+    return out
+
+
+def switch_cases(tier):
+    n = 400 if tier == "thorough" else 40
+    out = []
+    ja, jb = 2451545.0 + (-1990 - 2000) * 365.25, 2451545.0 + (3980 - 2000) * 365.25
+    for vi, (nm, fn, variant, per) in enumerate(variants()):
+        for i in range(n):
+            # irrational stride: the switch instants fall at unrelated times of day
+            out.append({"variant_index": vi, "query": ja + ((i * 0.6180339887 + 0.013 * vi) % 1.0) * (jb - ja)})
+    return out
+
+
+def run_switches(block, ctx):
+    for case in block:
+        ctx.evals += 90
+        ctx.nt_count += 1
+        for site, msg, dev in check_switch(case):
+            ctx.viol(case, msg, dev=dev, site=site)
+        ctx.outcome(case["variant_index"])
+    ctx.obs(block[0], block[-1])
+    ctx.sample(block[0])
 
 
 def check_range(case):
@@ -536,6 +607,8 @@ def clauses(tier):
             seams.append((vi, blk))
     return [
         Clause("calendar_seams", seams, run_calendar_seams, replay_sweep, floor=50000),
+        Clause("switch_seams", chunks(switch_cases(tier), 112), run_switches,
+               lambda c: [m for _, m, _ in check_switch(c)], floor=1000),
         Clause("every_event", every, run_every_event, replay_sweep, floor=50000),
         Clause("reused_epoch", chunks(reused, 32), run_reused, check_reused_epoch, floor=1000, shape="H"),
         Clause("spot_events", spots, run_spots, replay_sweep, floor=1000),
